@@ -101,6 +101,53 @@ class LiveWatch:
         return None
 
 
+def fwd_dependence_msg(letter_a, outs_a, letter_b, outs_b):
+    """(F) the forward path must not look at source.ready: two cycles from the same state whose inputs differ only
+    in source.ready show the same source.valid and, when valid, the same token (a source that waits for ready before
+    raising valid deadlocks against a consumer that waits for valid; a token that depends on ready changes when the
+    consumer stalls).  Lean: `Elem.fwd` has no `ready` argument."""
+    if bool(outs_a[1]) != bool(outs_b[1]):
+        return ("source.valid depends combinationally on source.ready: valid=%d with ready=%d, valid=%d with ready=%d"
+                % (outs_a[1], letter_a[4], outs_b[1], letter_b[4]))
+    if outs_a[1] and tuple(outs_a[2:5]) != tuple(outs_b[2:5]):
+        return ("source token depends combinationally on source.ready: %r with ready=%d, %r with ready=%d"
+                % (tuple(outs_a[2:5]), letter_a[4], tuple(outs_b[2:5]), letter_b[4]))
+    return None
+
+
+def fwd_probe(inst, letter):
+    """Evaluate (F) in the current register state for `letter` (no clock edge): returns (msg|None, letters)."""
+    la = tuple(letter[:4]) + (0,) + tuple(letter[5:])
+    lb = tuple(letter[:4]) + (1,) + tuple(letter[5:])
+    inst.apply(la)
+    oa = inst.sample()
+    inst.apply(lb)
+    ob = inst.sample()
+    return fwd_dependence_msg(la, oa, lb, ob), la
+
+
+class FwdMonitor:
+    """(F) as a trace monitor: after each cycle the register state *before* it is restored and the same letter
+    with source.ready flipped is evaluated (no clock edge), then the state after the cycle is put back."""
+
+    def __init__(self, inst):
+        self.inst = inst
+        self.pre = inst.netlist.snapshot()
+        self.checks = 0
+
+    def observe(self, letter, outs):
+        n = self.inst.netlist
+        post = n.snapshot()
+        n.restore(self.pre)
+        flipped = tuple(letter[:4]) + (1 - letter[4],) + tuple(letter[5:])
+        self.inst.apply(flipped)
+        o2 = self.inst.sample()
+        n.restore(post)
+        self.pre = post
+        self.checks += 1
+        return fwd_dependence_msg(letter, outs, flipped, o2)
+
+
 class Both:
     def __init__(self, *mons):
         self.mons = mons
@@ -132,6 +179,10 @@ def selftest():
     m.observe((1, 1, 0, 0, 0), [1, 1, 1, 0, 0])
     if m.observe((0, 0, 0, 0, 1), [1, 1, 1, 0, 0]) or m.observe((0, 0, 0, 0, 0), [1, 0, 0, 0, 0]):
         bad.append("false alarm on a legal trace")
+    if not fwd_dependence_msg((1, 1, 0, 0, 0), [1, 0, 0, 0, 0], (1, 1, 0, 0, 1), [1, 1, 1, 0, 0]):
+        bad.append("ready->valid dependence not flagged")
+    if fwd_dependence_msg((1, 1, 0, 0, 0), [0, 1, 1, 0, 0], (1, 1, 0, 0, 1), [1, 1, 1, 0, 0]):
+        bad.append("false alarm of the ready->valid check (only sink.ready may follow source.ready)")
     w = LiveWatch(1, 2)
     fired = [w.observe((1, 0, 0, 0, 1), [0, 0, 0, 0, 0]) for _ in range(3)]
     if not fired[2] or fired[0]:
@@ -185,7 +236,7 @@ class C04Inst:
         return self.inner.gen(rng, t)
 
     def monitor(self):
-        mons = [LiveWatch(self.k_hs, self.k_del, self.coop_extra, k_acc=self.k_acc)]
+        mons = [LiveWatch(self.k_hs, self.k_del, self.coop_extra, k_acc=self.k_acc), FwdMonitor(self)]
         if self.stable:
             mons.insert(0, StabilityMonitor())
         return Both(*mons)
@@ -324,7 +375,7 @@ def coexplore(inst, lean, cov, max_states=200000, deadline=None):
     seen = {root: (None, None)}
     frontier = deque([(root_snap, root)])
     alphabet = inst.alphabet
-    transitions = nontriv = checks = armed_checks = 0
+    transitions = nontriv = checks = armed_checks = fwd_checks = 0
     watched = {}
     maxgap = {"handshake": 0, "delivery": 0, "sink handshake": 0}
     out = []
@@ -337,6 +388,8 @@ def coexplore(inst, lean, cov, max_states=200000, deadline=None):
         reqs, impl_res = [], []
         for snap, st in batch:
             key, sid, sp, op, xp, armed = st
+            first_visit = key not in watched
+            fw = {}
             if key not in watched:
                 worst, wl, wmsg = coop_gaps(inst, snap)
                 watched[key] = True
@@ -355,6 +408,16 @@ def coexplore(inst, lean, cov, max_states=200000, deadline=None):
                 outs = impl_step(inst, letter)
                 impl_res.append((st, letter, outs, n.state_key(), n.snapshot()))
                 reqs.append((sid, inst.model_letter(letter) if hasattr(inst, "model_letter") else letter))
+                if first_visit:
+                    fk = tuple(letter[:4]) + tuple(letter[5:])
+                    if fk in fw:
+                        fwd_checks += 1
+                        fmsg = fwd_dependence_msg(fw[fk][0], fw[fk][1], letter, outs)
+                        if fmsg:
+                            tr = path_to(seen, st) + [letter]
+                            out.append(Disagreement(inst, tr, len(tr) - 1, outs, None, kind="monitor:" + fmsg))
+                    else:
+                        fw[fk] = (letter, outs)
         model_res = lean.step_batch(reqs)
         for (st, letter, outs, key2, snap2), (sid2, mouts) in zip(impl_res, model_res):
             key, sid, sp, op, xp, armed = st
@@ -399,6 +462,7 @@ def coexplore(inst, lean, cov, max_states=200000, deadline=None):
     rec = cov.instances[-1]
     rec.update({"wall_s": round(time.time() - t_start, 1), "impl_states_watched": len(watched),
                 "stability_checks": checks, "stability_checks_on_all_obeying_paths": armed_checks,
+                "ready_to_valid_independence_checks": fwd_checks,
                 "max_coop_cycles_to_handshake": maxgap["handshake"],
                 "max_coop_cycles_to_delivery": maxgap["delivery"],
                 "K_theorem": inst.k_hs, "K_delivery_theorem": inst.k_del})
@@ -407,6 +471,7 @@ def coexplore(inst, lean, cov, max_states=200000, deadline=None):
     if inst.note:
         rec["note"] = inst.note
     cov.hist["stability_checks"] = cov.hist.get("stability_checks", 0) + checks
+    cov.hist["fwd_independence_checks"] = cov.hist.get("fwd_independence_checks", 0) + fwd_checks
     cov.hist["watchdog_states"] = cov.hist.get("watchdog_states", 0) + len(watched)
     if len(cov.samples) < 4 and len(seen) > 1:
         last = next(reversed(seen))
@@ -435,6 +500,7 @@ def cosim(inst, lean, cov, rng, cycles, runs=1, watch_every=8):
         distinct = set()
         maxgap = {"handshake": 0, "delivery": 0, "sink handshake": 0}
         watched = 0
+        fwd_checks = 0
         for t in range(cycles):
             if t % watch_every == 0 and monmsg is None:
                 here = n.snapshot()
@@ -453,6 +519,13 @@ def cosim(inst, lean, cov, rng, cycles, runs=1, watch_every=8):
                                                  "Lean theorems (what, observed, bound): %r" % (over_bounds(inst, worst),)))
                     monmsg = (t, "bound")
             letter = prod.gen(rng, t)
+            if t % watch_every in (0, 3) and monmsg is None:
+                fmsg, fl = fwd_probe(inst, letter)
+                fwd_checks += 1
+                if fmsg:
+                    tr = list(letters) + [fl]
+                    out.append(Disagreement(inst, tr, len(tr) - 1, None, None, kind="monitor:" + fmsg))
+                    monmsg = (t, fmsg)
             outs = impl_step(inst, letter)
             prod.observe(letter, outs)
             letters.append(letter)
@@ -474,6 +547,7 @@ def cosim(inst, lean, cov, rng, cycles, runs=1, watch_every=8):
         cov.add_instance(inst.name, states=0, transitions=cycles, nontrivial=len(distinct), exhaustive=False, mode="B")
         cov.instances[-1].update({"wall_s": round(time.time() - t_run, 1),
                                   "stability_checks": stab.checks, "snapshots_watched": watched,
+                                  "ready_to_valid_independence_checks": fwd_checks,
                                   "max_coop_cycles_to_handshake": maxgap["handshake"],
                                   "max_coop_cycles_to_delivery": maxgap["delivery"],
                                   "K_theorem": inst.k_hs, "K_delivery_theorem": inst.k_del})
